@@ -191,3 +191,111 @@ Theorem td_colspan_bound :
 Proof. exact DomBlocks.td_colspan_bound. Qed.
 Print Assumptions td_colspan_bound.
 
+
+(* the column renumbering of RenderTable::new (Proofs/TableRemap.v): same rows, cells, contents;
+   a cell's new end is the rank of its old end among all cell ends of the table, so boundaries
+   keep their order across all rows, no cell disappears, and every new column boundary is a cell
+   boundary of some row (columns that no row separates are merged) *)
+From H2T Require Import Base Tagged Wrap Sub Css Dom Render Api CssParse Proofs.CssTotal Proofs.WrapInv Proofs.RenderWidth Proofs.Conserve Proofs.Footnotes Proofs.AnnBalance Proofs.RenderConserve Proofs.OptionRel Proofs.Compose Proofs.RenderTotal Proofs.FragStream Proofs.SimRel Proofs.Prune Proofs.TableRemap.
+
+Theorem render_table_new_shape :
+  forall (rows rows' : list rrow) (ncols : N),
+       render_table_new rows = Ok (ITable rows' ncols) ->
+       Forall2 shape rows rows' /\ ncols = maxN (map row_num_cells rows').
+Proof. exact TableRemap.render_table_new_shape. Qed.
+Print Assumptions render_table_new_shape.
+
+Theorem render_table_new_total :
+  forall (rows : list rrow) (ps : list N),
+       pos_rows rows ->
+       all_positions rows = Ok ps ->
+       exists rows' : list rrow,
+         render_table_new rows = Ok (ITable rows' (maxN (map row_num_cells rows'))) /\
+         Forall2 (remapped (table_set ps)) rows rows'.
+Proof. exact TableRemap.render_table_new_total. Qed.
+Print Assumptions render_table_new_total.
+
+Theorem render_table_new_ok_or_overflow :
+  forall rows : list rrow,
+       pos_rows rows ->
+       (exists (rows' : list rrow) (n : N), render_table_new rows = Ok (ITable rows' n)) \/
+       all_positions rows = Panic 30 /\ render_table_new rows = Panic 30.
+Proof. exact TableRemap.render_table_new_ok_or_overflow. Qed.
+Print Assumptions render_table_new_ok_or_overflow.
+
+Theorem render_table_new_positions :
+  forall (rows rows' : list rrow) (ncols : N),
+       pos_rows rows ->
+       render_table_new rows = Ok (ITable rows' ncols) ->
+       exists ps : list N,
+         all_positions rows = Ok ps /\
+         (let S := table_set ps in
+          ssorted S /\
+          NoDup S /\
+          (forall e : N, In e S <-> e = 0 \/ (exists r : rrow, In r rows /\ In e (old_ends r))) /\
+          Forall2 shape rows rows' /\ Forall2 (remapped S) rows rows').
+Proof. exact TableRemap.render_table_new_positions. Qed.
+Print Assumptions render_table_new_positions.
+
+Theorem remapped_pos :
+  forall (rows rows' : list rrow) (ncols : N),
+       pos_rows rows -> render_table_new rows = Ok (ITable rows' ncols) -> pos_rows rows'.
+Proof. exact TableRemap.remapped_pos. Qed.
+Print Assumptions remapped_pos.
+
+Theorem rank_order :
+  forall (S : list N) (e1 e2 : N), In e1 S -> In e2 S -> (rank e1 S ?= rank e2 S) = (e1 ?= e2).
+Proof. exact TableRemap.rank_order. Qed.
+Print Assumptions rank_order.
+
+Theorem remapped_order :
+  forall (rows rows' : list rrow) (ncols : N),
+       pos_rows rows ->
+       render_table_new rows = Ok (ITable rows' ncols) ->
+       exists S : list N,
+         Forall2 (fun r r' : rrow => new_ends r' = map (fun e : N => rank e S) (old_ends r)) rows rows' /\
+         (forall (r1 r2 : rrow) (e1 e2 : N),
+          In r1 rows ->
+          In r2 rows -> In e1 (old_ends r1) -> In e2 (old_ends r2) -> (rank e1 S ?= rank e2 S) = (e1 ?= e2)).
+Proof. exact TableRemap.remapped_order. Qed.
+Print Assumptions remapped_order.
+
+Theorem remapped_surj :
+  forall (rows rows' : list rrow) (ncols : N),
+       pos_rows rows ->
+       render_table_new rows = Ok (ITable rows' ncols) ->
+       exists ps : list N,
+         all_positions rows = Ok ps /\
+         (forall k : N,
+          1 <= k -> k < len (table_set ps) -> exists r' : rrow, In r' rows' /\ In k (new_ends r')).
+Proof. exact TableRemap.remapped_surj. Qed.
+Print Assumptions remapped_surj.
+
+Theorem remapped_ncols :
+  forall (rows rows' : list rrow) (ncols : N),
+       pos_rows rows ->
+       render_table_new rows = Ok (ITable rows' ncols) ->
+       exists ps : list N, all_positions rows = Ok ps /\ ncols = len (table_set ps) - 1.
+Proof. exact TableRemap.remapped_ncols. Qed.
+Print Assumptions remapped_ncols.
+
+Theorem tbody_rows_pos :
+  forall rows rows' : list rrow, tbody_rows rows = Ok rows' -> pos_rows rows'.
+Proof. exact TableRemap.tbody_rows_pos. Qed.
+Print Assumptions tbody_rows_pos.
+
+Theorem sorted_set_ssorted :
+  forall l : list N, ssorted (sorted_set l).
+Proof. exact TableRemap.sorted_set_ssorted. Qed.
+Print Assumptions sorted_set_ssorted.
+
+Theorem sorted_set_in :
+  forall (l : list N) (y : N), In y (sorted_set l) <-> In y l.
+Proof. exact TableRemap.sorted_set_in. Qed.
+Print Assumptions sorted_set_in.
+
+Theorem index_of_spec :
+  forall (l : list N) (x i : N), ssorted l -> In x l -> index_of x l i = Some (i + rank x l).
+Proof. exact TableRemap.index_of_spec. Qed.
+Print Assumptions index_of_spec.
+
